@@ -150,7 +150,8 @@ class MergeConsecutiveOp(BaseOp):
                 in_group = True
                 group_count += 1
                 continue
-            if in_group and row.equals(match_df.loc[index - 1, :]):
+            # Compare the cell values: the two row views can differ in dtype (str / object) for the same cells.
+            if in_group and row.astype(object).equals(match_df.loc[index - 1, :].astype(object)):
                 remove_groups[index] = group_count
             else:
                 group_count += 1
